@@ -94,7 +94,7 @@ def e10b(ctx: Ctx):
                 )
 
 
-@rule("E10c", "DATA-REWRITE: when DATA items are turned into strings they carry the number's decimal text (what VAL can read back)", ["C03", "C20", "C15", "C12"], floor=1, default_props=["C03", "C20", "C15"])
+@rule("E10c", "DATA-REWRITE: when DATA items are turned into strings they carry the number's decimal text (what VAL can read back)", ["C03", "C20", "C15", "C12", "C07"], floor=1, default_props=["C03", "C20", "C15"])
 def e10c(ctx: Ctx):
     py = pyfacts(ctx)
     fn = py.cls("BasicReadStatementPatcherVisitor").methods.get("visit_data_statement")
@@ -118,7 +118,8 @@ def e10c(ctx: Ctx):
             line=line,
             witness="" if ok else "10 DATA &HFF,,3",
             # str() of the item object itself is its default repr: it contains a memory address
-            props=["C03", "C20", "C15", "C12"] if (isinstance(src, ast.Call) and call_name(src) in ("str", "repr") and src.args and isinstance(inner, ast.Name)) else None,
+            # ... and the item object passed as it is (no str()) is written through its repr, unquoted: an internal object in the text
+            props=["C03", "C20", "C15", "C12", "C07"] if ((isinstance(src, ast.Call) and call_name(src) in ("str", "repr") and src.args and isinstance(inner, ast.Name)) or isinstance(src, ast.Name)) else None,
         )
 
 
@@ -358,6 +359,19 @@ def _norm(s: str) -> str:
     return re.sub(r"\s+", "", s.lower())
 
 
+def _unparen(t: str) -> str:
+    """Drop parentheses that enclose the whole expression (a propagated temporary is substituted in parentheses)."""
+    while t.startswith("(") and t.endswith(")"):
+        depth = 0
+        for i, ch in enumerate(t):
+            depth += ch == "("
+            depth -= ch == ")"
+            if depth == 0 and i < len(t) - 1:
+                return t
+        t = t[1:-1]
+    return t
+
+
 def _propagated(L, p) -> List[str]:
     """Normalised statement texts with single-assignment locals replaced by their defining expression
     (`istart = fix(index)` ... `to istart` reads as `to fix(index)`): the shape rules below look through temporaries."""
@@ -455,7 +469,7 @@ def l8b(ctx: Ctx):
     m = re.fullmatch(r"for(\w+)=(.+?)to(.+?)(?:step(-?\d+))?", texts[fi])
     if m is None:
         raise IdiomNotFound(f"`{stmts[fi].text.strip()}` not of the form FOR v = a TO b [STEP k]")
-    v, a, b, step = m.group(1), m.group(2), m.group(3), int(m.group(4) or 1)
+    v, a, b, step = m.group(1), _unparen(m.group(2)), _unparen(m.group(3)), int(m.group(4) or 1)
     init = any(re.fullmatch(rf"{out}:?=0(\.0*)?", t) for t in texts[:fi])
     ctx.ob("ecb_instr:starts-at-0", init, "" if init else f"the result is not set to 0 before the scan: when the pattern does not occur the caller's temporary keeps its previous value (Color BASIC returns 0)", file=LIB_REL, line=p.line, witness="" if init else 'INSTR(1,"ABC","Z")')
     first = rf"(fix|int)\({idx}\)|{idx}"
